@@ -78,7 +78,7 @@ class PotsMonitor:
             return
         exp, info = P.award(n, acc['contrib'], acc['pooled'], live,
                             [h if h is not None else [[None] * len(tn)] * nb for h in hands],
-                            nb, len(tn), C.DIVMODS.get(ctx.cfg.get('divmod'), P.ref_divmod), lambda a: st.rake(a, st),
+                            nb, len(tn), C.DIVMODS.get(ctx.cfg.get('divmod'), P.ref_divmod), (lambda a: st.rake(a, st)) if ctx.cfg.get('rake') else (lambda a: (0, a)),
                             cover=[acc['contrib'][i] + acc['front'][i] for i in range(n)])
         ctx.counters['terminals_compared'] += 1
         if exp is None:
@@ -165,12 +165,12 @@ def jobs(tier, seed):
             out.append(_j(f'1street-{n}p-manual-showdown',
                           C.custom(stacks, ONE, hand_types=HILO, antes=1, autos=SHOWAUTO, plan=plan),
                           opts={'show': (None, True, False)}))
-    # full tables: six and nine players with a ladder of stacks (up to eight side pots), every assignment of ranks to seats (quick: a fixed stride through them),
+    # full tables: six and nine players with a ladder of stacks (up to eight side pots), every assignment of ranks to seats (a fixed stride through them, four times finer in the thorough tier),
     # histories within two deviations of "everybody calls" (one shove and everybody calls builds the whole ladder)
     for stacks, step in [((1, 2, 3, 4, 5, 6), 3), ((6, 2, 5, 1, 4, 3), 7), ((1, 2, 3, 4, 5, 6, 7, 8, 9), 41), ((5, 9, 1, 7, 3, 8, 2, 6, 4), 43)]:
         n = len(stacks)
         pats = [r for r in product('JQK', repeat=n) if max(r.count(x) for x in 'JQK') <= 3]
-        for ranks in pats[::step if not th else 1]:
+        for ranks in pats[::step if not th else max(1, step // 4)]:
             left = {r: list('shd') for r in 'JQK'}
             plan = [r + left[r].pop(0) for r in ranks]
             out.append(_j(f'1street-{n}p-ladder', C.custom(stacks, ONE, deck='KUHN9', hand_types=HILO, antes=1, plan=plan),
